@@ -35,6 +35,12 @@ Definition silent_visit (c : config) (s : state) (i : nat) : bool :=
   | _ => false
   end.
 
+Definition cond_settles (c : config) (s : state) (i : nat) : bool :=
+  match st s i with
+  | Waiting => match cond_of c i with CErr | CFalse => true | _ => false end
+  | _ => false
+  end.
+
 Definition would_start (c : config) (s : state) (i : nat) : bool :=
   match st s i with
   | Waiting =>
@@ -65,7 +71,10 @@ Fixpoint list_eqb (a b : list nat) : bool :=
 Definition elab_ev (c : config) (a : acc) (t : tev) : acc :=
   match t with
   | TS i =>
-    let a1 := do_ev c a (Visit i) in
+    (* dependencies that are settled by their own condition (skipped, or a condition error) were visited before i started,
+       even when eager saturation had stopped because the run was already cancelled *)
+    let a0 := fold_left (fun a d => if Nat.ltb d (length c) && cond_settles c (a_s a) d then do_ev c a (Visit d) else a) (deps_of c i) a in
+    let a1 := do_ev c a0 (Visit i) in
     let a2 := match st (a_s a1) i with Running => a1 | _ => mkAcc (a_s a1) (a_es a1) false (a_c04 a1) (a_infl a1) end in
     saturate c a2
   | TR i ok =>
